@@ -84,13 +84,13 @@ def build():
     PARSE = ("T-PARSE", r"(?P<e>[\w.]+)\.parse\(\)", r"crate::shims::parse_text(&\g<e>)", None)
     u.verify(S, "impl ExternalAccountStorage", "account::storage", props=["C11"], fns={
         "new": FnSpec(ret="r", sig="    ensures eab_rel(r, *external_account), //@C11.binding_is_stored_whole\n"),
-        "to_generic": FnSpec(ret="r", sig="    ensures r matches Ok(e) ==> eab_rel(*self, e), //@C11.binding_is_read_back_whole\n", rewrites=[PARSE])})
+        "to_generic": FnSpec(ret="r", sig="    ensures r matches Ok(e) ==> eab_rel(*self, e), //@C11.binding_is_read_back_whole,C04.binding_is_read_back_whole\n", rewrites=[PARSE])})
     u.verify(S, "impl AccountKeyStorage", "account::storage", props=["C11"], fns={
         "new": FnSpec(ret="r", sig="    ensures r matches Ok(s) ==> key_rel(s, *key), //@C11.key_is_stored_with_its_date_and_algorithm\n"),
-        "to_generic": FnSpec(ret="r", sig="    ensures r matches Ok(k) ==> key_rel(*self, k), //@C11.key_is_read_back_with_its_date_and_algorithm\n", rewrites=[PARSE])})
+        "to_generic": FnSpec(ret="r", sig="    ensures r matches Ok(k) ==> key_rel(*self, k), //@C11.key_is_read_back_with_its_date_and_algorithm,C04.key_is_read_back_with_its_date_and_algorithm\n", rewrites=[PARSE])})
     u.verify(S, "impl AccountEndpointStorage", "account::storage", props=["C11"], fns={
         "new": FnSpec(ret="r", sig="    ensures ep_rel(r, *account_endpoint), //@C11.endpoint_record_is_stored_whole\n"),
-        "to_generic": FnSpec(ret="r", sig="    ensures ep_rel(*self, r), //@C11.endpoint_record_is_read_back_whole\n")})
+        "to_generic": FnSpec(ret="r", sig="    ensures ep_rel(*self, r), //@C11.endpoint_record_is_read_back_whole,C04.endpoint_record_is_read_back_whole\n")})
     BYTES = ("T-BYTES", r"&(?P<v>\w+)\[\.\.\]", r"\g<v>.as_slice()", None)
     u.verify(S, "do_fetch", "account::storage", props=["C11"], fns={"do_fetch": FnSpec(ret="r", ghost=True, sig=FETCH_SIG,
              rewrites=[chain_rw("do_fetch"), BYTES])})
